@@ -12,9 +12,9 @@ import (
 	"github.com/256dpi/gomqtt/packet"
 	"github.com/256dpi/gomqtt/session"
 
-	"verifharness/internal/gen"
-	"verifharness/internal/out"
-	"verifharness/internal/wire"
+	"verifharness/lib/gen"
+	"verifharness/lib/out"
+	"verifharness/lib/wire"
 )
 
 var w *out.W
